@@ -130,6 +130,9 @@ class StateMachine(metaclass=StateMachineMetaclass):
     def __getstate__(self):
         state = self.__dict__.copy()
         state["_rtc"] = self._engine._rtc
+        # only a machine that was not activated yet (async, before the first event) still has
+        # its initial activation ahead
+        state["_activation_pending"] = self.current_state_value is None
         del state["_callbacks"]
         del state["_states_for_instance"]
         del state["_engine"]
@@ -138,6 +141,7 @@ class StateMachine(metaclass=StateMachineMetaclass):
     def __setstate__(self, state):
         listeners = state.pop("_listeners")
         rtc = state.pop("_rtc")
+        activation_pending = state.pop("_activation_pending", False)
         self.__dict__.update(state)
         self._callbacks = CallbacksRegistry()
         self._states_for_instance: Dict[State, State] = {}
@@ -148,7 +152,10 @@ class StateMachine(metaclass=StateMachineMetaclass):
         # provided by a listener only
         self._register_callbacks(list(listeners))
         self._engine = self._get_engine(rtc)
-        self._engine.start()
+        if activation_pending:
+            # not from the model: when the copy is reached through its model (an object that
+            # owns the machine), the cloned model is still empty at this point
+            self._engine.start()
 
     def _get_initial_state(self):
         initial_state_value = (
